@@ -37,13 +37,14 @@ def register(PROPS):
         'claim': 'Task X (MAX-SIMUL 1, 2 or unset) and task Y (unset or 1), both SECONDLY with six occurrences: every history up to the stated '
                  'depth over {ADD/replace, CANCEL, TICK on-time/idle/late, EXIT of any live job (each job individually)} is executed; a start must be for real '
                  'iff fewer than N jobs of that task are alive, otherwise carry the no-run flag; every real job must be watched; the other task\'s '
-                 'starts are judged by its own limit only.  A linear sweep covers N = 3..62.',
+                 'starts are judged by its own limit only.  A linear sweep runs one fill / refuse / exit / run-again history for every N = 1..62.',
         'note': E2_NOTE + '  Real process lifetimes are replaced by explicit EXIT events; echsx\'s handling of the no-run flag is C13/C14 territory.',
         'rule': 'as C04: case = pair of first two events, subtree explored exhaustively; non-trivial = subtree holds >= 2 states',
         'bound': {'quick': 'depth 6', 'thorough': 'depth 8'},
         'counter_map': {'states': 'states', 'transitions': 'transitions', 'traces_validated_against_impl': 'traces'},
         'drivers': [
             D('e2_explore', ['prop=C12', 'depth=6', '--case-timeout', '60'], ['prop=C12', 'depth=8', '--case-timeout', '300'], label='depth'),
+            D('e2_explore', ['prop=C12', 'mode=sweep', '--case-timeout', '60'], label='sweep-N-1..62'),
             D('e2_explore', ['prop=C12', 'depth=4', '--case-timeout', '60'], ['prop=C12', 'depth=5', '--case-timeout', '120'], label='asan', variant='asan'),
         ],
         'assumptions': ['unset MAX-SIMUL means unlimited'],
